@@ -108,7 +108,7 @@ def hdrlen(identity):
     return 3 if identity.startswith("4076") else 2
 
 
-def sweep(ctx, identity, vs, cs, ms, seedtag, pinned=False):
+def sweep(ctx, identity, vs, cs, ms, seedtag, pinned=False, word=None):
     """pinned: the reference encoder / decoder walk the PINNED field layouts (vf.stdlayout: widths, signedness,
     counts as the standards give them) instead of the repository's own tables read as data - a table entry that
     was changed (say, a repeat count made signed) then no longer drags the oracle along."""
@@ -121,10 +121,12 @@ def sweep(ctx, identity, vs, cs, ms, seedtag, pinned=False):
             return
         tabs = (stdlayout.LAYOUT, stdlayout.F)
         ctx.hit("sweeps_with_pinned_layout")
-    enc = refmodel.build(identity, rng, vs, cs, ms, tabs=tabs)
+    enc = refmodel.build(identity, rng, vs, cs, ms, tabs=tabs, force=({"__word__": word} if word else None))
     full = enc.payload
     base = {"kind": "cut", "identity": identity, "vstrat": vs, "cstrat": cs, "mstrat": ms, "seedtag": seedtag,
-            "pinned": pinned}
+            "pinned": pinned, "word": word}
+    if word:
+        ctx.hit("sweeps_with_real_world_text")
     # sanity: the full message parses (else this is C03's problem, not ours)
     try:
         parse(full)
@@ -250,6 +252,20 @@ def run(ctx):
                         sweep(ctx, identity, vs, cs, ms, rng.getrandbits(48), pinned=True)
                 except refmodel.DefinitionError:
                     break
+        # string-bearing types: the text groups spell real-world names (antenna / receiver descriptors, CRS names ...)
+        try:
+            probe = refmodel.build(identity, random.Random(1), "random", "small", "random")
+            has_text = any(f["typ"] in ("STR", "CHA") for f in probe.fields) or identity in ("1007", "1008", "1033", "1029")
+        except refmodel.DefinitionError:
+            has_text = False
+        if has_text:
+            words = list(refmodel.VOCAB) if not ctx.quick else [w_ for j_, w_ in enumerate(refmodel.VOCAB)
+                                                                if j_ % 2 == ctx.seed % 2 or w_[:3] in ("ADV", "ETR", "ITR")]
+            for w_ in words:
+                try:
+                    sweep(ctx, identity, "random", "random", "random", rng.getrandbits(48), word=w_)
+                except refmodel.DefinitionError:
+                    break
         for _ in range(40 if ctx.quick else 1500):
             garbage(ctx, identity, rng)
         if not sampled:
@@ -270,4 +286,5 @@ def replay(ctx, p):
         except refmodel.Short as s:
             must_reject(ctx, p["identity"], pl, str(s), p)
         return
-    sweep(ctx, p["identity"], p["vstrat"], p["cstrat"], p["mstrat"], p["seedtag"], p.get("pinned", False))
+    sweep(ctx, p["identity"], p["vstrat"], p["cstrat"], p["mstrat"], p["seedtag"], p.get("pinned", False),
+          p.get("word"))
